@@ -238,5 +238,25 @@ package kvql
 //@   props C01 C05
 //@   ifaceassumed evalok evalv
 //@   requires e != nil && e.Right != nil
-//@   ensures[C01] defined: (err == nil) == (evalok(e.Right, val(kv.Key), val(kv.Value)) && isbool(evalv(e.Right, val(kv.Key), val(kv.Value))))
-//@   ensures[C01] value: err == nil ==> result == ABool(!bval(evalv(e.Right, val(kv.Key), val(kv.Value))))
+//@   ensures[C01] meaning: docNot(e, kv, err == nil, result)
+//
+// ---------------------------------------------------------------------------------------------
+// The documented meaning of a binary node as one predicate over (does it evaluate, to what).
+//@ define docEq(e *BinaryOpExpr, kv KVPair, ok Bool, r Any) Bool = (ok == (lok(e, kv) && rok(e, kv) && eqKinds(lv(e, kv), rv(e, kv)))) && (ok ==> r == ABool(eqVal(lv(e, kv), rv(e, kv))))
+//@ define docNe(e *BinaryOpExpr, kv KVPair, ok Bool, r Any) Bool = (ok == (lok(e, kv) && rok(e, kv) && eqKinds(lv(e, kv), rv(e, kv)))) && (ok ==> r == ABool(!eqVal(lv(e, kv), rv(e, kv))))
+//@ define docPrefix(e *BinaryOpExpr, kv KVPair, ok Bool, r Any) Bool = (ok == (lok(e, kv) && rok(e, kv) && isText(lv(e, kv)) && isText(rv(e, kv)))) && (ok ==> r == ABool(pre(textOf(rv(e, kv)), textOf(lv(e, kv)))))
+//@ define docAnd(e *BinaryOpExpr, kv KVPair, ok Bool, r Any) Bool = (ok == (lok(e, kv) && isbool(lv(e, kv)) && (!bval(lv(e, kv)) || (rok(e, kv) && isbool(rv(e, kv)))))) && (ok ==> r == ABool(bval(lv(e, kv)) && bval(rv(e, kv))))
+//@ define docOr(e *BinaryOpExpr, kv KVPair, ok Bool, r Any) Bool = (ok == (lok(e, kv) && isbool(lv(e, kv)) && (bval(lv(e, kv)) || (rok(e, kv) && isbool(rv(e, kv)))))) && (ok ==> r == ABool(bval(lv(e, kv)) || bval(rv(e, kv))))
+//@ define docTextOrder(e *BinaryOpExpr, kv KVPair, ok Bool, r Any) Bool = (ok == (lok(e, kv) && rok(e, kv) && isText(lv(e, kv)) && isText(rv(e, kv)))) && (ok ==> r == ABool(cmpHolds(opSym(e.Op), cmp(textOf(lv(e, kv)), textOf(rv(e, kv))))))
+//@ define docNumOrder(e *BinaryOpExpr, kv KVPair, ok Bool, r Any) Bool = (ok == (lok(e, kv) && rok(e, kv) && isNum(lv(e, kv)) && isNum(rv(e, kv)))) && (ok && isInt(lv(e, kv)) && isInt(rv(e, kv)) ==> r == ABool(intHolds(opSym(e.Op), intof(lv(e, kv)), intof(rv(e, kv))))) && (ok && !(isInt(lv(e, kv)) && isInt(rv(e, kv))) ==> r == ABool(fltHolds(opSym(e.Op), numOf(lv(e, kv)), numOf(rv(e, kv)))))
+//@ define docMath(e *BinaryOpExpr, kv KVPair, ok Bool, r Any) Bool = (ok == (lok(e, kv) && rok(e, kv) && isNum(lv(e, kv)) && isNum(rv(e, kv)) && !divByZero(opChar(e.Op), rv(e, kv)))) && (ok && isInt(lv(e, kv)) && isInt(rv(e, kv)) ==> r == AInt(intOp(opChar(e.Op), intof(lv(e, kv)), intof(rv(e, kv))))) && (ok && !(isInt(lv(e, kv)) && isInt(rv(e, kv))) ==> r == AFlt(fltOp(opChar(e.Op), numOf(lv(e, kv)), numOf(rv(e, kv)))))
+//@ define isOrderOp(op Operator) Bool = op == Gt || op == Gte || op == Lt || op == Lte
+//@ define docBin(e *BinaryOpExpr, kv KVPair, ok Bool, r Any) Bool = (e.Op == Eq ==> docEq(e, kv, ok, r)) && (e.Op == NotEq ==> docNe(e, kv, ok, r)) && (e.Op == PrefixMatch ==> docPrefix(e, kv, ok, r)) && (e.Op == And || e.Op == KWAnd ==> docAnd(e, kv, ok, r)) && (e.Op == Or || e.Op == KWOr ==> docOr(e, kv, ok, r)) && (isOrderOp(e.Op) && rtype(e.Left) == TSTR ==> docTextOrder(e, kv, ok, r)) && (isOrderOp(e.Op) && rtype(e.Left) != TSTR ==> docNumOrder(e, kv, ok, r)) && (e.Op == Sub || e.Op == Mul || e.Op == Div || (e.Op == Add && rtype(e.Left) != TSTR) ==> docMath(e, kv, ok, r))
+//
+// What the row evaluator was proved to compute, read through the definitional interface clauses
+// (result == evalv, err == nil iff evalok): the meaning of evalok / evalv on binary nodes. The
+// vector forms are proved against it.
+//@ axiom doc_bin(e *BinaryOpExpr, kv KVPair): is(e, *BinaryOpExpr) ==> docBin(e, kv, evalok(e, val(kv.Key), val(kv.Value)), evalv(e, val(kv.Key), val(kv.Value)))
+//
+//@ define docNot(e *NotExpr, kv KVPair, ok Bool, r Any) Bool = (ok == (evalok(e.Right, val(kv.Key), val(kv.Value)) && isbool(evalv(e.Right, val(kv.Key), val(kv.Value))))) && (ok ==> r == ABool(!bval(evalv(e.Right, val(kv.Key), val(kv.Value)))))
+//@ axiom doc_not(e *NotExpr, kv KVPair): is(e, *NotExpr) ==> docNot(e, kv, evalok(e, val(kv.Key), val(kv.Value)), evalv(e, val(kv.Key), val(kv.Value)))
